@@ -36,19 +36,45 @@ fn header(k: i64) -> chainsync::HeaderContent {
         cbor: vec![(k & 0xff) as u8; (48 + k) as usize],
     }
 }
+/// Size class of a token: list-carrying payloads are empty for token 1 and
+/// have 2, 3, ... elements for the others, while requested amounts / counts
+/// are 0, 2, 5 for tokens 1, 2, 3 - so that over the token pairs a reply is
+/// shorter than, as long as and longer than what an earlier message asked
+/// for (amount 0 with a non-empty reply included). Injective on 0..12.
+fn n(k: i64) -> usize {
+    match k {
+        k if k < 0 => 0,
+        0 => 1,
+        1 => 0,
+        2 => 2,
+        3 => 3,
+        k => (k + 3) as usize,
+    }
+}
+fn asked(k: i64) -> i64 {
+    match k {
+        k if k < 0 => 0,
+        0 => 1,
+        1 => 0,
+        2 => 2,
+        3 => 5,
+        k => 10 + k,
+    }
+}
 fn points(k: i64) -> Vec<Point> {
-    vec![point(k), point(k + 40), Point::Origin]
+    (0..n(k) as i64).map(|i| if i == 2 { Point::Origin } else { point(10 * k + i + 40) }).collect()
 }
 fn body(k: i64) -> Vec<u8> {
-    vec![(0x40 + k) as u8; (64 + k) as usize]
+    vec![(0x40 + k) as u8; 32 * n(k)]
 }
 fn vdata(k: i64) -> handshake::n2n::VersionData {
     handshake::n2n::VersionData::new((7000 + k) as u64, k % 2 == 0, Some((k & 1) as u8), Some(false))
 }
 fn vtable(k: i64) -> handshake::VersionTable<handshake::n2n::VersionData> {
     let mut values = HashMap::new();
-    values.insert((10 + k) as u64, vdata(k));
-    values.insert((30 + k) as u64, vdata(k + 1));
+    for i in 0..n(k) as i64 {
+        values.insert((10 + 20 * i + k) as u64, vdata(k + i));
+    }
     handshake::VersionTable { values }
 }
 fn vnum(k: i64) -> u64 {
@@ -57,51 +83,52 @@ fn vnum(k: i64) -> u64 {
 fn reason(k: i64) -> handshake::RefuseReason {
     match k.rem_euclid(3) {
         0 => handshake::RefuseReason::HandshakeDecodeError(vnum(k), format!("decode-{k}")),
-        1 => handshake::RefuseReason::VersionMismatch(vec![vnum(k), vnum(k + 1)]),
+        1 => handshake::RefuseReason::VersionMismatch((0..n(k) as i64).map(|i| vnum(k + i)).collect()),
         _ => handshake::RefuseReason::Refused(vnum(k), format!("refused-{k}")),
     }
 }
 fn amount(k: i64) -> u8 {
-    (3 + k) as u8
+    asked(k) as u8
 }
 fn peers(k: i64) -> Vec<peersharing::PeerAddress> {
-    vec![
-        peersharing::PeerAddress::V4(std::net::Ipv4Addr::new(10, 0, 0, k as u8), (3000 + k) as u16),
-        peersharing::PeerAddress::V6(
-            std::net::Ipv6Addr::new(0x2001, 0xdb8, 0, 0, 0, 0, 0, k as u16),
-            (4000 + k) as u16,
-        ),
-    ]
+    (0..n(k) as i64)
+        .map(|i| {
+            if i % 2 == 0 {
+                peersharing::PeerAddress::V4(std::net::Ipv4Addr::new(10, 0, k as u8, i as u8), (3000 + k) as u16)
+            } else {
+                peersharing::PeerAddress::V6(
+                    std::net::Ipv6Addr::new(0x2001, 0xdb8, 0, 0, 0, 0, i as u16, k as u16),
+                    (4000 + k) as u16,
+                )
+            }
+        })
+        .collect()
 }
 fn txids(k: i64) -> Vec<txsubmission::TxIdAndSize<txsubmission::EraTxId>> {
-    vec![txsubmission::TxIdAndSize(
-        txsubmission::EraTxId(6, vec![k as u8; 32]),
-        (200 + k) as u32,
-    )]
+    (0..n(k) as i64)
+        .map(|i| txsubmission::TxIdAndSize(txsubmission::EraTxId(6, vec![(16 * k + i) as u8; 32]), (200 + k) as u32))
+        .collect()
 }
 fn txid_list(k: i64) -> Vec<txsubmission::EraTxId> {
-    vec![txsubmission::EraTxId(6, vec![k as u8; 32]), txsubmission::EraTxId(5, vec![(k + 1) as u8; 32])]
+    (0..n(k) as i64).map(|i| txsubmission::EraTxId(6 - (i % 2) as u16, vec![(16 * k + i) as u8; 32])).collect()
 }
 fn bodies(k: i64) -> Vec<txsubmission::EraTxBody> {
-    if k < 0 {
-        return vec![];
-    }
-    vec![txsubmission::EraTxBody(6, vec![(0x80 + k) as u8; (30 + k) as usize])]
+    (0..n(k) as i64).map(|i| txsubmission::EraTxBody(6, vec![(0x80 + 8 * k + i) as u8; (30 + k) as usize])).collect()
 }
 fn count(k: i64) -> u16 {
-    (k + 2) as u16
+    asked(k) as u16
 }
 fn cbor(k: i64) -> AnyCbor {
     AnyCbor::from_encode((900 + k) as u64)
 }
 fn cbors(k: i64) -> Vec<AnyCbor> {
-    vec![cbor(k), cbor(k + 50)]
+    (0..n(k) as i64).map(|i| cbor(50 * k + i)).collect()
 }
 fn size(k: i64) -> u32 {
     (70000 + k) as u32
 }
 fn bitmaps(k: i64) -> leiosfetch::Bitmaps {
-    leiosfetch::Bitmaps::from_indices([k as usize, (64 + 2 * k) as usize])
+    leiosfetch::Bitmaps::from_indices((0..n(k)).map(|i| 64 * i + (k as usize)))
 }
 
 /// token of a value = the k whose constructor value equals it
@@ -538,6 +565,24 @@ fn agrees(exp: &Value, got: &Value) -> bool {
     e.len() == g.len() && e.iter().zip(g.iter()).all(|(a, b)| *a == FREE || a == b)
 }
 
+fn clip(s: String) -> String {
+    if s.len() > 400 { format!("{}...[{} chars]", &s[..400], s.len()) } else { s }
+}
+fn detail<F: Fsm>(s: &F::S, m: &F::M, exp: &Value) -> Value {
+    let got = match catch(|| F::apply(s, m)) {
+        Ok(Ok(n)) => clip(format!("{n:?}")),
+        Ok(Err(e)) => format!("Err({e})"),
+        Err(p) => format!("panic({p})"),
+    };
+    let want = if exp["ok"].as_bool() == Some(true) {
+        let d: Vec<i64> = ints(&exp["data"]);
+        F::state(jstr(&exp["cls"]), jstr(&exp["sub"]), &d).map(|x| clip(format!("{x:?}"))).unwrap_or_default()
+    } else {
+        "Err".to_string()
+    };
+    json!({"got": got, "want": want})
+}
+
 /// one application of the real `apply`; returns (got, next real state if Ok)
 fn step<F: Fsm>(s: &F::S, m: &F::M) -> (Value, Option<F::S>) {
     match catch(|| F::apply(s, m)) {
@@ -569,8 +614,13 @@ fn run_vec<F: Fsm>(idx: usize, v: &Value, out: &mut Ndjson) {
             let m = build_msg::<F>(&v["msg"]);
             let (got, _) = step::<F>(&s, &m);
             let ok = agrees(&v["exp"], &got);
-            out.ev(json!({"kind": "pair", "proto": proto, "idx": idx, "step": 1, "st": v["st"], "msg": v["msg"],
-                          "exp": v["exp"], "got": got, "ok": ok}));
+            let mut row = json!({"kind": "pair", "proto": proto, "idx": idx, "step": 1, "st": v["st"], "msg": v["msg"],
+                                 "exp": v["exp"], "got": got, "ok": ok});
+            if !ok {
+                // the full carried payload, as the implementation has it and as the specification prescribes it
+                row["detail"] = detail::<F>(&s, &m, &v["exp"]);
+            }
+            out.ev(row);
         }
         "seq" => {
             let mut s = F::init();
